@@ -26,6 +26,7 @@ Meaning of an expression = a function stack -> bool:
     generic_arg(i, x) as a chain element: s[-1] is the i-th generic argument and [[x]](s)     (undocumented public method;
                                                                                               meaning taken from its name)
 """
+import abc
 import collections.abc
 import re
 import typing
@@ -62,6 +63,23 @@ class C:
         return 0
 
 
+class Base(abc.ABC):
+    @abc.abstractmethod
+    def area(self):
+        ...
+
+
+class Impl(Base):
+    """a concrete class (no abstract method left) whose metaclass is ABCMeta: rule 1 (same type only) applies to it"""
+
+    def area(self):
+        return 0
+
+
+class Impl2(Impl):
+    pass
+
+
 @typing.runtime_checkable
 class Proto(typing.Protocol):
     """a user-written runtime checkable protocol: its member is an ordinary (not abstract) method, as protocols are usually written;
@@ -88,6 +106,8 @@ TYPES = {
     "C": TypeDesc(C, C, (), "concrete"),
     "Sequence": TypeDesc(collections.abc.Sequence, collections.abc.Sequence, (), "abstract"),
     "list": TypeDesc(list, list, (), "concrete"),
+    "Impl": TypeDesc(Impl, Impl, (), "concrete"),
+    "Impl2": TypeDesc(Impl2, Impl2, (), "concrete"),
     "SupportsInt": TypeDesc(typing.SupportsInt, typing.SupportsInt, (), "protocol"),
     "Proto": TypeDesc(Proto, Proto, (), "protocol"),
     "List[int]": TypeDesc(typing.List[int], list, ("int",), "parametrized"),
